@@ -25,7 +25,15 @@ pub fn session_case(rng: &mut Rng, out: &mut Out, cfg: &SessionCfg, prop: &str) 
             None => gen_engine_vocab(rng, cfg.extra_vocab),
         }
     };
-    let env = make_env(&ws, eos, false);
+    // a quarter of the sessions run over a tokenizer with a second end-of-sequence token
+    let mut ws = ws;
+    let extra_eos = if rng.chance(1, 4) {
+        ws.push(b"\xFF<|end2|>".to_vec());
+        Some((ws.len() - 1) as u32)
+    } else {
+        None
+    };
+    let env = make_env2(&ws, eos, extra_eos, false);
     let mut m = match new_matcher(&env, &lark, &[]) {
         Ok(m) => m,
         Err(e) => {
@@ -61,6 +69,11 @@ pub fn session_case(rng: &mut Rng, out: &mut Out, cfg: &SessionCfg, prop: &str) 
             // ---- the property on the implementation alone
             if mask.contains(&eos) != acc {
                 viol.push(format!("EOS in mask = {} but is_accepting = {} after {:?}", mask.contains(&eos), acc, history));
+            }
+            if let Some(x) = extra_eos {
+                if mask.contains(&x) != acc {
+                    viol.push(format!("second EOS token in mask = {} but is_accepting = {} after {:?}", mask.contains(&x), acc, history));
+                }
             }
             if cfg.check_all_tokens {
                 for t in 0..ws.len() as u32 {
@@ -137,6 +150,10 @@ pub fn session_case(rng: &mut Rng, out: &mut Out, cfg: &SessionCfg, prop: &str) 
             let stopped = !r.to_string().starts_with("(stop 0");
             ops.push(Op::Stopped);
             results.push(r);
+            // committing any end-of-sequence token in an accepting state ends the run
+            if ok && (t == eos || Some(t) == extra_eos) && !stopped {
+                viol.push(format!("end-of-sequence token {t} committed in an accepting state but the engine did not stop, after {:?}", history));
+            }
             if !ok || stopped {
                 break;
             }
@@ -147,12 +164,15 @@ pub fn session_case(rng: &mut Rng, out: &mut Out, cfg: &SessionCfg, prop: &str) 
         viol.push("panic escaped from the Matcher API".to_string());
     }
     let mut inp = vec![g.to_sx()];
-    inp.extend(vocab_sx(&ws, eos));
+    inp.extend(vocab_sx2(&ws, eos, extra_eos));
     inp.push(tagged("canonical", vec![int(0)]));
     inp.push(tagged("ops", ops.iter().map(|o| o.to_sx()).collect()));
     let input = tagged("session", inp);
     for v in viol {
         out.violation(&v, format!("{}\n--- lark ---\n{}", input, lark));
+    }
+    if extra_eos.is_some() {
+        out.count("sessions_with_two_eos_tokens", 1);
     }
     out.count(&format!("{prop}_sessions"), 1);
     out.count("ops", ops.len() as u64);
